@@ -78,8 +78,17 @@ type essCertIDv2 struct {
 
 // TSA is a time-stamping authority: a root and a token signing certificate.
 type TSA struct {
-	Root *common.Cert
-	Leaf *common.Cert
+	Root  *common.Cert
+	Inter *common.Cert // optional intermediate CA between the root and the signing certificate
+	Leaf  *common.Cert
+}
+
+// Chain is the TSA's certificate chain, signing certificate first.
+func (t *TSA) Chain() []*x509.Certificate {
+	if t.Inter != nil {
+		return []*x509.Certificate{t.Leaf.Cert, t.Inter.Cert, t.Root.Cert}
+	}
+	return []*x509.Certificate{t.Leaf.Cert, t.Root.Cert}
 }
 
 // TSAOpts describes the TSA's certificates.
@@ -92,6 +101,8 @@ type TSAOpts struct {
 	LeafKeyUsage x509.KeyUsage      // default DigitalSignature
 	Root         *common.Cert       // reuse an existing root
 	CRLURLs      []string           // CRL distribution points of the signing certificate
+	Intermediate bool               // root -> intermediate CA -> signing certificate
+	InterEKU     []x509.ExtKeyUsage // extended key usage of the intermediate CA (nil: no EKU extension)
 }
 
 // NewTSA mints root -> TSA signing certificate.
@@ -105,9 +116,16 @@ func NewTSA(o TSAOpts) *TSA {
 	if eku == nil {
 		eku = []x509.ExtKeyUsage{x509.ExtKeyUsageTimeStamping}
 	}
-	leaf := common.MakeCert(common.CertOpts{Subject: common.Name("tsa signer " + o.Tag), Parent: root, EKU: eku,
+	issuer := root
+	var inter *common.Cert
+	if o.Intermediate {
+		inter = common.MakeCert(common.CertOpts{Subject: common.Name("tsa intermediate " + o.Tag), CA: true, PathLen: 0, Parent: root,
+			EKU: o.InterEKU, NotBefore: o.NotBefore, NotAfter: o.NotAfter})
+		issuer = inter
+	}
+	leaf := common.MakeCert(common.CertOpts{Subject: common.Name("tsa signer " + o.Tag), Parent: issuer, EKU: eku,
 		CriticalEKU: !o.NonCritical, KeyUsage: o.LeafKeyUsage, CRLURLs: o.CRLURLs, NotBefore: o.NotBefore, NotAfter: o.NotAfter})
-	return &TSA{Root: root, Leaf: leaf}
+	return &TSA{Root: root, Inter: inter, Leaf: leaf}
 }
 
 // TokenOpts describes one timestamp token.
@@ -183,11 +201,15 @@ func (t *TSA) Token(o TokenOpts) []byte {
 		other := sha256.Sum256(append([]byte("x"), encodedAttrs...))
 		sig, _ = ecdsa.SignASN1(rand.Reader, t.Leaf.Key.(*ecdsa.PrivateKey), other[:])
 	}
+	certSet := append([]byte{}, cert.Raw...)
+	if t.Inter != nil {
+		certSet = append(certSet, t.Inter.Cert.Raw...) // the token carries the intermediate CA, as real tokens do
+	}
 	sd := cmsSignedData{
 		Version:                    3,
 		DigestAlgorithmIdentifiers: []pkix.AlgorithmIdentifier{{Algorithm: oidSHA256}},
 		EncapsulatedContentInfo:    cmsEncapsulatedContentInfo{ContentType: oidTSTInfo, Content: infoBytes},
-		Certificates:               asn1.RawValue{Class: asn1.ClassContextSpecific, Tag: 0, IsCompound: true, Bytes: cert.Raw},
+		Certificates:               asn1.RawValue{Class: asn1.ClassContextSpecific, Tag: 0, IsCompound: true, Bytes: certSet},
 		SignerInfos: []cmsSignerInfo{{
 			Version:            1,
 			SignerIdentifier:   cmsIssuerAndSerialNumber{Issuer: issuer, SerialNumber: cert.SerialNumber},
